@@ -159,8 +159,8 @@ Usage:
 		cli.argvalues = append(cli.argvalues, v)
 	}
 	for k, v := range opts.ArgJSON {
-		val, _ := newJSONInputIter(strings.NewReader(v), "$"+k).Next()
-		if err, ok := val.(error); ok {
+		val, err := parseJSONArg(v, "$"+k)
+		if err != nil {
 			return err
 		}
 		cli.argnames = append(cli.argnames, "$"+k)
@@ -189,8 +189,8 @@ Usage:
 	positional := opts.Args
 	for i, v := range opts.JSONArgs {
 		if v != nil {
-			val, _ := newJSONInputIter(strings.NewReader(v.(string)), "--jsonargs").Next()
-			if err, ok := val.(error); ok {
+			val, err := parseJSONArg(v.(string), "--jsonargs")
+			if err != nil {
 				return err
 			}
 			if i < len(positional) {
@@ -278,6 +278,26 @@ Usage:
 		iter = newNullInputIter()
 	}
 	return cli.process(iter, code)
+}
+
+// parseJSONArg parses the text given to --argjson or --jsonargs,
+// which has to be exactly one JSON value.
+func parseJSONArg(text, name string) (any, error) {
+	iter := newJSONInputIter(strings.NewReader(text), name)
+	val, ok := iter.Next()
+	if !ok {
+		return nil, &jsonParseError{name, text, 0, io.ErrUnexpectedEOF}
+	}
+	if err, ok := val.(error); ok {
+		return nil, err
+	}
+	if val, ok := iter.Next(); ok {
+		if err, ok := val.(error); ok {
+			return nil, err
+		}
+		return nil, fmt.Errorf("invalid json: %s: expected one value but got more: %s", name, text)
+	}
+	return val, nil
 }
 
 func slurpFile(name string) (any, error) {
